@@ -60,6 +60,15 @@ def identities(n):
          lambda **kw: ref_power_coeffs(pts(kw))[::-1]),
         ('bezier2polynomial_poly1d', v + ['t'], lambda **kw: bezier2polynomial(pts(kw), return_poly1d=True)(kw['t']),
          lambda **kw: bernstein_eval(pts(kw), kw['t'])),
+        # the same options given by position, and both at once
+        ('bezier2polynomial_std_positional', v, lambda **kw: list(bezier2polynomial(pts(kw), False)),
+         lambda **kw: ref_power_coeffs(pts(kw))[::-1]),
+        ('bezier2polynomial_numpy_positional', v, lambda **kw: list(bezier2polynomial(pts(kw), True, False)),
+         lambda **kw: ref_power_coeffs(pts(kw))),
+        ('bezier2polynomial_poly1d_positional', v + ['t'], lambda **kw: bezier2polynomial(pts(kw), True, True)(kw['t']),
+         lambda **kw: bernstein_eval(pts(kw), kw['t'])),
+        # (numpy_ordering=False together with return_poly1d=True is not in the alphabet: the documentation defines
+        #  numpy_ordering for the returned coefficient tuple only, and a poly1d has one fixed coefficient order)
         ('split_bezier', v + ['t'], lambda **kw: [list(x) for x in split_bezier(pts(kw), kw['t'])],
          lambda **kw: ref_split(pts(kw), kw['t'])),
         ('halve_bezier', v, lambda **kw: [list(x) for x in halve_bezier(pts(kw))],
